@@ -1,5 +1,5 @@
-// Package c10: selection policies return an available upstream iff one exists, per contract.
-package c10
+// Package c10r (real FNV hash, no replacement): selection policies return an available upstream iff one exists, per contract.
+package c10r
 
 import (
 	"github.com/mholt/caddy-l4/layer4"
@@ -194,22 +194,7 @@ func roundRobin(wrap bool) {
 	}
 }
 
-var hashCache map[string]uint32
-
-// The hash is an arbitrary deterministic function of its input.
-//
-//verif:replace github.com/mholt/caddy-l4/modules/l4proxy.hash
-func Repl_hash(s string) uint32 {
-	if v, ok := hashCache[s]; ok {
-		return v
-	}
-	v := vapi.Uint32("hash")
-	hashCache[s] = v
-	return v
-}
-
 func VH_ip_hash() {
-	hashCache = map[string]uint32{}
 	mf := maxFails()
 	n := poolSize()
 	xs, pool := mkPool(n, mf)
@@ -250,10 +235,5 @@ func VH_ip_hash() {
 }
 
 func init() {
-	for name, f := range map[string]func(){
-		"VH_first": VH_first, "VH_least_conn": VH_least_conn, "VH_random": VH_random, "VH_random_choose": VH_random_choose,
-		"VH_round_robin": VH_round_robin, "VH_round_robin_wrap": VH_round_robin_wrap, "VH_ip_hash": VH_ip_hash,
-	} {
-		vapi.Register("c10."+name, f)
-	}
+	vapi.Register("c10r.VH_ip_hash", VH_ip_hash)
 }
